@@ -50,7 +50,8 @@ func (f *Func) CFG() *CFG {
 	bodies := []ast.Node{f.Body}
 	siteOf := map[*cfg.Block]inlineSite{}
 	seenBody := map[*Func]bool{}
-	for _, h := range f.spliceInlined(g, mayReturn, 0, siteOf) {
+	extraConds := map[ast.Expr]bool{}
+	for _, h := range f.spliceInlined(g, mayReturn, 0, siteOf, extraConds) {
 		if !seenBody[h] {
 			seenBody[h] = true
 			bodies = append(bodies, h.Body)
@@ -58,6 +59,9 @@ func (f *Func) CFG() *CFG {
 	}
 	c := &CFG{F: f, G: g, siteOf: siteOf, loc: map[ast.Node]Loc{}, conds: map[ast.Expr]ast.Expr{}, isCnd: map[ast.Expr]bool{},
 		preds: map[*cfg.Block][]*cfg.Block{}}
+	for e := range extraConds {
+		c.isCnd[e] = true
+	}
 	// condition expressions
 	for _, body := range bodies {
 		walkOwn(body, func(n ast.Node) bool {
